@@ -277,6 +277,9 @@ def C10(ctx):
     d_place = G.c01_r5(ctx, f)
     d_fmt = G.c04_r3(ctx, f)
     d_masks = G.c08_r4(ctx, f)
+    # the scorers run on every build with an automatic mask: evaluated on complete small domains, 147 long lines and symbols of
+    # real sizes - a panic (a narrowed counter or accumulator overflowing in the debug profile) met there is reported
+    d_score = Sp.c11_r9(ctx, f)
     witness.rule(ctx, "C10.W1", "build returns Result<QRCode, QRCodeError>; the error has exactly two variants",
                  ["w_c05_error_is_exhaustive", "w_c10_build_type"])
     ev = {}
@@ -288,6 +291,8 @@ def C10(ctx):
         ev["placement::place_on_matrix_data"] = "C01.R5"
     if d_il:
         ev["polynomials::structure"] = "C02.R4"
+    if d_score:
+        ev["score::"] = "C11.R9 (complete small domains, long lines, symbols of real sizes)"
     if d_div:
         # every bounds / overflow assert of the division was decided with the block bytes free (none assumed), for every block length
         ev["polynomials::division"] = "C07.R4 (every block content)"
@@ -315,16 +320,16 @@ def C10(ctx):
                     "stages (blank symbol, format writer, placement, mask sweeps, interleaving) for every configuration and every "
                     "payload; the GF division for every block content of every block length in use (C07.R4); the encoders on the "
                     "evaluated (mode, version, level, length) cells, including the capacity of every level of V40 and lengths around "
-                    "2^8..2^12 (C06.R2). Not decided: the encoders at other lengths, the scorers on arbitrary symbols. "
+                    "2^8..2^12 (C06.R2). the scorers on complete small domains, 147 long lines and symbols of real sizes (C11.R9). Not decided: the encoders at other lengths, the scorers on arbitrary symbols. "
                     "Evidence lists the explicit panic sites reachable from build and the assert inventory (no verdict).",
     )
 
 
 def C11(ctx):
     f = ctx.facts("default")
+    d_score = Sp.c11_r9(ctx, f)  # first: it tells C11.R8 whether the scorer is exact in every argument or may cut at a bound
     G.c04_r5(ctx, f)
     d_sel = G.c11_r8(ctx, f)
-    d_score = Sp.c11_r9(ctx, f)
     # R2 (each candidate ranked by its own penalty) stays a hard rule: it carries the known finding D1
     R.c11_rules(soft_if(soft_if(ctx, d_sel, "C11.R8", only={"C11.R1", "C11.R3", "C11.R4"}), d_score, "C11.R9", only={"C11.R5"}), f)
     G.c11_d1_if_missing(ctx, f)
